@@ -101,7 +101,7 @@ func Table() map[string]*Property {
 			"intersect.gen.genMap", "intersect.gen.genSlice", "filter.gen.genFuncFor", "takewhile.gen.genFuncFor", "all.gen.genFuncFor", "any.gen.genFuncFor"}, Only: semantic}},
 		Assumptions: append([]string{
 			"lemma L-count (induction, trusted): countIf is monotone and strictly increases across a counted position",
-			"Unique on elements that are not ==-comparable (hash-bucket path): only text-level obligations are generated; its functional contract (pairwise non-Equal, covering, first occurrences in order) needs a bucket-table invariant that is NOT mechanised - this path is not counted as proved",
+			"Unique on elements that are not ==-comparable (hash-bucket path) relies on the contract of derived Hash (Equal ==> same hash; proved under C04) through HashSpec",
 		}, oAssume...),
 		Trusted: oTrusted,
 		Note:    "Contains <=> some element Equal to the item; Set/Union/Intersect are the mathematical set operations (lists: first list's order, then new items); Filter keeps exactly the satisfying elements in order (countIf characterisation); TakeWhile the maximal satisfying prefix; All/Any the quantifiers; the predicate is called on elements in order and not after the stopping point (effect trace)",
@@ -133,10 +133,42 @@ func Table() map[string]*Property {
 		Assumptions: append([]string{
 			"range over a string yields (byte offset, rune) pairs: offsets strictly increase by 1..4, start at 0, end at len(s); the number of pairs is len([]rune(s)) - this holds for invalid UTF-8 too",
 			"lemma (induction, trusted): sumLen is monotone; strings.Join is the uninterpreted strJoin",
-			"'inputs are not modified' is not an obligation of its own: the emitted functions assign to no parameter element (slices as values)",
+			"'inputs are not modified' is the ownership obligation: element writes, appends, copy, delete and sorting only on slices and maps the function allocated itself (flow-insensitive, conservative)",
 		}, oAssume...),
 		Trusted: oTrusted,
 		Note:    "Fmap over a slice / the runes of a string: same length, i-th result is f of the i-th input, f called once per element in order (in-bounds indexing under the rune-iteration model); Join of slices: nil for nil, length is the sum, elements in order (sumLen characterisation); Join of strings: strings.Join(list, \"\")",
+	})
+	add(&Property{
+		ID:     "C03",
+		Groups: []Group{{Layer: "O", Funcs: []string{"compare.gen.field", "compare.gen.genStatement", "compare.gen.genFunc", "compare.gen.genCurriedFunc"}, Only: semantic}},
+		Assumptions: append([]string{
+			"the specification function CmpTop is taken from the property: false<true, numeric <, byte-wise strings, real before imaginary part, nil first, shorter first, then lexicographic by position / field, maps of equal size through their sorted key enumerations; a different total order would fail the functional clause although the property allows it",
+			"floats are NaN-free and totally ordered by flt_lt / flt_eq",
+			"lexicographic comparison of sequences is defined by one axiom with an explicit witness function (least-number principle; conservative)",
+			"lemma L-sortedkeys (trusted; Mathlib: Finset.sort, List.eq_of_perm_of_sorted): for value key types the sorted enumeration of a map's keys exists, is strictly increasing, unique, and a function of the key set",
+			"a []byte component is handed to bytes.Compare (a different total order, consistent with bytes.Equal): that path is text-level only, not under the functional contract",
+			"user Compare methods are total preorders with values in {-1,0,1} that are zero exactly on values the type's equality accepts and treat nil receivers nil-first",
+			"struct field counts are enumerated up to 3 (bounded in arity)",
+			"termination of the emitted recursion follows from the acyclic-values hypothesis (not mechanised)",
+		}, oAssume...),
+		Trusted: append([]string{"strings.Compare contract (sign of byte-wise order)", "sort.Slice/Strings/Ints/Float64s: rearrangement without inversions that keeps pairwise distinct elements pairwise distinct"}, oTrusted...),
+		Note:    "every path of compare.field / genStatement / genFunc / genCurriedFunc returns exactly CmpTop (one level unfolded, components by contract), the curried form agrees with the binary form; per type shape the lemmas about CmpTop itself: values in {-1,0,1}, antisymmetric, transitive (also strict), zero exactly when EqTop holds - with the order axioms of the components as induction hypothesis",
+	})
+	add(&Property{
+		ID:     "C04",
+		Groups: []Group{{Layer: "O", Funcs: []string{"hash.gen.field", "hash.gen.genStatement", "hash.gen.genFunc"}, Only: semantic}},
+		Assumptions: append([]string{
+			"relational verification on a product program built mechanically from the emitted function (two renamed copies in lockstep; branch agreement is an obligation, never an assumption); statements outside the product's shape (switch, break, closures, range over maps) make the construction fail, which is reported as contract-applies",
+			"callers use a hash function through HashSpec(T, x), a function of the value with EqC(T,x,y) ==> HashSpec(T,x) == HashSpec(T,y); its existence is what the relational clause proves (induction over the type structure; recursion through the helper contracts)",
+			"HashSpec / EqSpec are heap-less: sound while the function under proof only extends the heap by fresh cells (checked: the emitted hash functions are pure)",
+			"machine arithmetic (31*h + c, wrapping) is a deterministic function of its operands; overflow is not an obligation",
+			"IEEE 754 (trusted): x + 0 maps +0 and -0 to +0 and leaves other non-NaN values unchanged, so ==-equal floats have equal bits after adding 0",
+			"repeatability across processes: the emitted code has no source of nondeterminism other than map iteration, which it only uses through sorted keys (lemma L-sortedkeys as in C03)",
+			"user Hash methods are total functions of the receiver's value consistent with the type's equality",
+			"'does not modify its argument': heap frame of the emitted function plus the ownership obligation for slices and maps",
+		}, oAssume...),
+		Trusted: oTrusted,
+		Note:    "for every path of hash.field / genStatement / genFunc: two runs on arguments related by EqTop (EqC) take the same branches, iterate alike and return the same number",
 	})
 	add(&Property{
 		ID:     "C02",
